@@ -6,7 +6,11 @@ Workloads (all run the REAL CompilerArgs / CLikeCompilerArgs of $VERIF_REPO unde
   2  random operation sequences up to length 60 over several interacting lists
   3  the same shadow inside real `meson setup` runs of generated C projects
   4  end to end: -D/-U order + effective macro values (gcc -E -dM) and include-directory order in the
-     ARGS of the compile statements of the generated build.ninja
+     ARGS of the compile statements of the generated build.ninja; pkg-config dependencies whose Libs:/Cflags: repeat
+     non-dedupable arguments (reference: what the real pkg-config prints); library arguments on COMPILE lines of
+     multi-source targets: library group once and in place on every ARGS/LINK_ARGS, identical ARGS for all sources of a
+     target, and (shadow, in the meson child) every conversion equals the meaning of the increments alone, whatever
+     other consumers read or converted the list before
 """
 from __future__ import annotations
 
@@ -598,6 +602,66 @@ def decided_winner(levels: T.Iterable[str]) -> T.Optional[str]:
     return None
 
 
+PK_WRAPPERS = {
+    'bare': ([], []),
+    'push-as-needed': (['-Wl,--push-state,--as-needed'], ['-Wl,--pop-state']),
+    'push-no-as-needed': (['-Wl,--push-state', '-Wl,--no-as-needed'], ['-Wl,--pop-state']),
+    'whole-archive': (['-Wl,--whole-archive'], ['-Wl,--no-whole-archive']),
+}
+
+
+def gen_pkgconfig(rng: random.Random) -> dict:
+    """pkg-config packages whose `Libs:` / `Cflags:` REPEAT arguments that cannot be de-duplicated (every library in its
+    own push-state/pop-state or whole-archive pair, -framework pairs, a plain flag given several times, the same flags in
+    a package and in the package it requires).  What the link / compile line must hold is derived from what the real
+    `pkg-config --libs/--cflags` prints for these files."""
+    packages: T.List[dict] = []
+    npk = rng.choice([1, 2, 2, 3])
+    for i in range(npk):
+        name = f'zkp{i}'
+        libs = {f'{name}{c}': rng.choice(['a', 'a', 'so']) for c in 'ab'[:rng.choice([1, 2, 2])] + ('c' if rng.random() < 0.3 else '')}
+        same = rng.choice([None, 'push-as-needed', 'push-as-needed', 'whole-archive', 'push-no-as-needed'])
+        line: T.List[str] = ['-L${libdir}']
+        for ln in libs:
+            pre, post = PK_WRAPPERS[same or rng.choice(sorted(PK_WRAPPERS))]
+            line += pre + ['-l' + ln] + post
+        extras = [['-framework', 'ZkFa', '-framework', 'ZkFb'], ['-framework', 'ZkFa', '-framework', 'ZkFa'],
+                  ['-Wl,--undefined=zk_u1', '-Wl,--undefined=zk_u2', '-Wl,--undefined=zk_u1'],
+                  ['-Wl,-z,zkdefs', '-Wl,-z,zkdefs']]
+        for e_ in rng.sample(extras, rng.randint(0, 2)):
+            k = rng.randint(1, len(e_) - 1) if not e_[0] == '-framework' else rng.choice([0, len(e_)])
+            # part in front of the libraries, the rest behind them (a -framework pair stays together)
+            line[1:1] = e_[:k]
+            line += e_[k:]
+        if rng.random() < 0.3:
+            line.append('-l' + next(iter(libs)))            # a once-only argument given again
+        cextras = [['-fno-math-errno', '-fno-trapping-math', '-fno-math-errno'],
+                   ['-Xassembler', '--zk1', '-Xassembler', '--zk2'],
+                   ['-imacros', '${prefix}/zkm1.h', '-imacros', '${prefix}/zkm2.h'],
+                   ['-DZKSHARED', '-I${prefix}/zkinc_shared'], ['-UZKSHARED', '-DZKSHARED'],
+                   ['-l' + next(iter(libs)), '-lzkcfl']]      # a sloppy Cflags: line that names libraries
+        chunks = [[f'-DZKP{i}=1'], ['-I${prefix}/zkinc' + str(i)]] + rng.sample(cextras, rng.randint(1, 3))
+        if rng.random() < 0.4:
+            chunks.append(['-fno-math-errno'])
+        rng.shuffle(chunks)
+        cfl: T.List[str] = [a for c_ in chunks for a in c_]
+        requires = f'zkp{i - 1}' if i and rng.random() < 0.5 else None
+        packages.append({'name': name, 'libs': libs, 'libs_line': line, 'cflags_line': cfl, 'requires': requires})
+    listed = rng.sample([p['name'] for p in packages], rng.randint(1, npk))
+    return {'packages': packages, 'listed': listed, 'path_via': rng.choice(['PKG_CONFIG_PATH', 'pkg_config_path']),
+            'wrapped': rng.random() < 0.25}
+
+
+def pc_text(p: dict) -> str:
+    return ('prefix=@SRC@\nlibdir=${prefix}/zkpc/lib\n'
+            f"Name: {p['name']}\nDescription: generated\nVersion: 1.0\n" +
+            (f"Requires: {p['requires']}\n" if p['requires'] else '') +
+            f"Cflags: {' '.join(p['cflags_line'])}\nLibs: {' '.join(p['libs_line'])}\n")
+
+
+MS_LIBS = ['-lzms1', '-lzms2', '-Wl,-lzms3', 'libzms4.a', 'libzms5.so', 'libzms6.so.1.2']
+
+
 def gen_project(rng: random.Random, idx: int) -> dict:
     """A small C project with duplicated settings at global/project/option/dependency/target level."""
     macros: T.Dict[str, T.Dict[str, T.List[str]]] = {}
@@ -630,6 +694,10 @@ def gen_project(rng: random.Random, idx: int) -> dict:
             level_args[lvl].append('-pthread')
         if rng.random() < 0.5:
             level_args[lvl].append(rng.choice(['-fno-common', '-funroll-loops']))
+    o_libs = rng.random() < 0.3
+    if o_libs:
+        # library arguments in CFLAGS / -Dc_args: every compile line of the project carries several libraries
+        level_args['O'] += ['-lm', '-ldl']
     tdirs = rng.sample(['t1', 't2', 't3'], rng.randint(1, 3))
     ddirs = rng.sample(['d1', 'd2', 'd3'], rng.randint(1, 3))
     sdirs = rng.sample(['s1', 's2', 's3'], rng.randint(0, 3))
@@ -785,6 +853,26 @@ def gen_project(rng: random.Random, idx: int) -> dict:
     mb.append("zvexe3 = executable('zvexe3', 'main.c', dependencies: zv_non)")
     if zv_order != 'read-by-target-first':
         mb.append("zvexe1 = executable('zvexe1', 'main.c', dependencies: zv)")
+    # a target with several sources whose COMPILE lines carry library-type arguments (c_args, a dependency's
+    # compile_args): every source gets the same arguments, the library group is formed once
+    nms = rng.choice([0, 1, 2, 2, 3, 4])
+    ms_libs = rng.sample(MS_LIBS, nms)
+    k = rng.randint(0, nms)
+    ms = {'dep': ['-DZMSD=1'] + ms_libs[:k], 'target': ms_libs[k:] + ['-DZMST=1']}
+    if rng.random() < 0.3 and ms_libs:
+        ms['target'].append(ms_libs[0])                     # a repeat of a once-only argument
+    rng.shuffle(ms['dep'])
+    mb.append(f"msd = declare_dependency(compile_args: [{q(ms['dep'])}])")
+    mb.append(f"msexe = executable('msexe', 'ms_a.c', 'ms_b.c', 'ms_c.c', c_args: [{q(ms['target'])}], dependencies: msd)")
+    pk = gen_pkgconfig(rng)
+    for p_ in pk['packages']:
+        if p_['name'] in pk['listed']:
+            mb.append(f"{p_['name']} = dependency('{p_['name']}', method: 'pkg-config')")
+    if pk['wrapped']:
+        mb.append(f"pkw = declare_dependency(dependencies: [{', '.join(pk['listed'])}])")
+        mb.append("pkexe = executable('pkexe', 'ms_a.c', 'ms_b.c', dependencies: pkw)")
+    else:
+        mb.append(f"pkexe = executable('pkexe', 'ms_a.c', 'ms_b.c', dependencies: [{', '.join(pk['listed'])}])")
     # several languages: arguments registered for ['c', 'cpp'], then for one language, then for both again
     multi: T.Optional[dict] = None
     if rng.random() < 0.5:
@@ -808,6 +896,7 @@ def gen_project(rng: random.Random, idx: int) -> dict:
         mb.append("zcpp = executable('zcpp', 'zcpp.cpp')")
     files: T.Dict[str, str] = {'meson.build': '\n'.join(mb) + '\n',
                                'zqe1.h': '#define ZQE1 1\n', 'zqe2.h': '#define ZQE2 1\n',
+                               'zkm1.h': '#define ZKM1 1\n', 'zkm2.h': '#define ZKM2 1\n',
                                'zqs1/zqs.h': '/* 1 */\n', 'zqs2/zqs.h': '/* 2 */\n',
                                'zqv/zqv.h': '/* v */\n', 'zqw/zqw.h': '/* w */\n',
                                'zc.c': 'int main(void) { return 0; }\n', 'zcpp.cpp': 'int main() { return 0; }\n',
@@ -815,9 +904,12 @@ def gen_project(rng: random.Random, idx: int) -> dict:
                                'ninc_a/which.h': '#define WHICH 1\n', 'ninc_b/which.h': '#define WHICH 2\n',
                                'ninc_c/which.h': '#define WHICH 3\n',
                                'main.c': 'int main(void) { return 0; }\n',
+                               'ms_a.c': 'int main(void) { return 0; }\n', 'ms_b.c': 'int ms_b;\n', 'ms_c.c': 'int ms_c;\n',
                                'l1.c': 'int l1(void) { return 1; }\n', 'l2.c': 'int l2(void) { return 2; }\n'}
     for d in set(tdirs + ddirs + sdirs + ['ds1', 'ds2']):
         files[f'{d}/h_{d}.h'] = f'/* {d} */\n'
+    for p_ in pk['packages']:
+        files[f"zkpc/{p_['name']}.pc"] = pc_text(p_)
     if use_sub:
         files['subprojects/sub/meson.build'] = (
             "project('sub', 'c')\nadd_project_arguments('-DLVL=SP', '-DSUBONLY', language: 'c')\n"
@@ -856,6 +948,10 @@ def gen_project(rng: random.Random, idx: int) -> dict:
             argv.append('-Dc_args=' + ' '.join(level_args['O']))
         if rng.random() < 0.5:
             argv.append('-Dc_link_args=-lm -Wl,--as-needed')
+    if pk['path_via'] == 'PKG_CONFIG_PATH':
+        env['PKG_CONFIG_PATH'] = '@SRC@/zkpc'
+    else:
+        argv.append('-Dpkg_config_path=@SRC@/zkpc')
     argv.append('-Dbuildtype=' + rng.choice(['debug', 'release', 'debugoptimized', 'plain', 'minsize']))
     if rng.random() < 0.3:
         argv.append('-Dwerror=true')
@@ -865,10 +961,12 @@ def gen_project(rng: random.Random, idx: int) -> dict:
         argv.append('-Db_pie=true')
     if rng.random() < 0.3:
         argv.append('-Dc_std=' + rng.choice(['c99', 'gnu11']))
-    return {'idx': idx, 'files': files, 'argv': argv, 'macros': per_level_macro, 'nseq': nseq, 'iseq': iseq, 'lseq': lseq, 'cchecks': cchecks, 'env': env, 'env_c': env_c, 'env_ld': env_ld, 'env_shared': env_shared, 'zv_order': zv_order, 'env_o': (level_args['O'] if use_env else []), 'tbase': tbase, 'multi': multi, 'tdirs': tdirs, 'ddirs': ddirs,
+    return {'idx': idx, 'files': files, 'argv': argv, 'macros': per_level_macro, 'nseq': nseq, 'iseq': iseq, 'lseq': lseq, 'cchecks': cchecks, 'env': env, 'env_c': env_c, 'env_ld': env_ld, 'env_shared': env_shared, 'zv_order': zv_order, 'env_o': (level_args['O'] if use_env else []), 'ms': ms, 'pk': pk, 'tbase': tbase, 'multi': multi, 'tdirs': tdirs, 'ddirs': ddirs,
             'sdirs': sdirs, 'dup_dir': dup_dir, 'use_sub': use_sub, 'global_args': level_args['G'],
             'project_args': level_args['P'], 'features': sorted(
-                [f'lib:{libkind}'] + [f'dep-copy:{zv_order}'] + [f'env:{k}' for k in env] + (['env:same-linker-option-in-CFLAGS-and-LDFLAGS'] if env_shared else []) + (['c+cpp'] if multi else []) + (['subproject'] if use_sub else []) + (['two-deps'] if two_deps else []) +
+                [f'lib:{libkind}'] + [f'dep-copy:{zv_order}'] + [f'compile-line-libraries:{min(nms, 2)}{"+option-level" if o_libs else ""}'] +
+                [f'pkg-config:path-via-{pk["path_via"]}', f'pkg-config:listed-{len(pk["listed"])}'] + (['pkg-config:wrapped-in-declare_dependency'] if pk['wrapped'] else []) +
+                (['pkg-config:requires'] if any(p_['requires'] for p_ in pk['packages']) else []) + [f'env:{k}' for k in env] + (['env:same-linker-option-in-CFLAGS-and-LDFLAGS'] if env_shared else []) + (['c+cpp'] if multi else []) + (['subproject'] if use_sub else []) + (['two-deps'] if two_deps else []) +
                 (['dup-include-dir'] if dup_dir else []) + (['dep-isystem'] if dsys else []) +
                 (['isystem'] if sdirs else []) + [a.split('=')[0] for a in argv[2:]])}
 
@@ -1282,6 +1380,127 @@ def check_target_base_args(proj: dict, target: str, tokens: T.List[str]) -> T.Tu
     return cnt, bad
 
 
+GROUP_S, GROUP_E = '-Wl,--start-group', '-Wl,--end-group'
+
+
+def check_group_markers(tokens: T.List[str]) -> T.Optional[str]:
+    """A command line is the eager list converted ONCE: one --start-group in front of the first and one --end-group
+    behind the last library argument when there are several, none otherwise (comments of CLikeCompilerArgs.to_native;
+    the generated projects never pass group markers themselves)."""
+    bare = [t for t in tokens if t not in (GROUP_S, GROUP_E)]
+    want = refargs.RefArgs(refargs.CLIKE, bare).native_form(True)
+    if tokens == want:
+        return None
+    if tokens.count(GROUP_S) > 1 or tokens.count(GROUP_E) > 1:
+        return 'repeated'
+    if len(want) == len(bare):
+        return 'without-several-libraries'
+    if len(tokens) == len(bare):
+        return 'missing'
+    return 'misplaced'
+
+
+def check_multi_source_target(proj: dict, tokens: T.List[str]) -> T.Tuple[T.Dict[str, int], T.List[T.Tuple[str, dict]]]:
+    """msexe: compile_args of the dependency, then the target's c_args (two increments, dependency < target), with library
+    arguments among them: eager meaning on the arguments only these two supply."""
+    cnt = {'e2e:compile-line-library-args': 1}
+    bad: T.List[T.Tuple[str, dict]] = []
+    ms = proj['ms']
+    ref = refargs.RefArgs(refargs.CLIKE)
+    ref.add_batch(list(ms['dep']))
+    ref.add_batch(list(ms['target']))
+    ns = set(ms['dep']) | set(ms['target'])
+    expected = [t for t in ref.items if t in ns]
+    observed = [t for t in tokens if t in ns]
+    if len([t for t in expected if refargs.is_group_lib(t)]) >= 2:
+        cnt['e2e:compile-line-library-args:several'] = 1
+    if observed != expected:
+        bad.append(('e2e-compile-line-library-arguments-differ-from-eager:' + S.classify_list_diff(refargs.CLIKE, observed, expected),
+                    {'observed': observed, 'expected': expected, 'increments': [ms['dep'], ms['target']]}))
+    return cnt, bad
+
+
+def build_pkgconfig_libs(src: str, proj: dict) -> None:
+    """The libraries the generated .pc files name (so that -lX resolves to ONE file: static or shared as drawn)."""
+    libdir = os.path.join(src, 'zkpc', 'lib')
+    os.makedirs(libdir, exist_ok=True)
+    obj = os.path.join(src, 'zqla', 'zqw.o')
+    so: T.Optional[str] = None
+    for p_ in proj['pk']['packages']:
+        for ln, kind in p_['libs'].items():
+            if kind == 'a':
+                subprocess.run(['ar', 'rcs', os.path.join(libdir, f'lib{ln}.a'), obj], check=True, stdout=subprocess.DEVNULL,
+                               stderr=subprocess.DEVNULL, timeout=60)
+            elif so is None:
+                so = os.path.join(libdir, f'lib{ln}.so')
+                subprocess.run(['gcc', '-shared', '-fPIC', '-x', 'c', '-', '-o', so], input=b'int zkso;\n', check=True,
+                               stdout=subprocess.DEVNULL, stderr=subprocess.DEVNULL, timeout=60)
+            else:
+                shutil.copyfile(so, os.path.join(libdir, f'lib{ln}.so'))
+
+
+def pkgconfig_says(src: str, proj: dict) -> T.Optional[T.Dict[str, T.Dict[str, T.List[str]]]]:
+    """What the REAL pkg-config prints for the listed packages (the reference for what has to arrive)."""
+    env = dict(runner.base_env())
+    env['PKG_CONFIG_PATH'] = os.path.join(src, 'zkpc')
+    out: T.Dict[str, T.Dict[str, T.List[str]]] = {}
+    for name in proj['pk']['listed']:
+        out[name] = {}
+        for what, extra in (('libs', {'PKG_CONFIG_ALLOW_SYSTEM_LIBS': '1'}), ('cflags', {})):
+            e2 = dict(env)
+            e2.update(extra)
+            try:
+                p = subprocess.run(['pkg-config', '--' + what, name], env=e2, stdout=subprocess.PIPE, stderr=subprocess.DEVNULL, timeout=30)
+            except (OSError, subprocess.TimeoutExpired):
+                return None
+            if p.returncode != 0:
+                return None
+            out[name][what] = shlex.split(p.stdout.decode('utf-8', 'replace'))
+    return out
+
+
+def check_pkgconfig_args(proj: dict, src: str, says: T.Dict[str, T.Dict[str, T.List[str]]], tokens: T.List[str],
+                         link: bool) -> T.Tuple[T.Dict[str, int], T.List[T.Tuple[str, dict]]]:
+    """pkexe: the arguments pkg-config prints for the listed packages reach the command line with their eager meaning.
+    Link line: the dependencies' link_args in listed order, each one increment added "without reordering or de-dup to
+    preserve -L -l sets" (generate_link); `-L` is consumed by the library lookup and `-lX` stands for the one file
+    lib X resolves to (PkgConfigDependency._search_libs docstring).  Compile line: the dependencies' compile_args as
+    increments in reversed listed order (generate_basic_compiler_args).  Arguments that cannot be de-duplicated keep
+    order and multiplicity; a repeated library is dropped."""
+    cnt: T.Dict[str, int] = {}
+    bad: T.List[T.Tuple[str, dict]] = []
+    t = refargs.CLIKE
+    libdir = os.path.join(src, 'zkpc', 'lib')
+    files = {'-l' + ln: os.path.join(libdir, f'lib{ln}.{kind}') for p_ in proj['pk']['packages'] for ln, kind in p_['libs'].items()}
+    ref = refargs.RefArgs(t)
+    watched: T.Set[str] = set()
+    incs: T.List[T.List[str]] = []
+    names = list(proj['pk']['listed'])
+    for name in (names if link else reversed(names)):
+        if link:
+            inc = [files.get(a, a) for a in says[name]['libs'] if not a.startswith('-L')]
+            ref.extend_preserving_lflags(inc)
+        else:
+            inc = list(says[name]['cflags'])
+            ref.add_batch(inc)
+        incs.append(inc)
+        watched.update(inc)
+    watched.discard('-pthread')
+    expected = [a for a in ref.items if a in watched]
+    observed = [a for a in tokens if a in watched]
+    nd = [a for a in expected if t.kind(a) == refargs.NONE and not t.prepends(a)]
+    key = 'e2e:pkg-config-link-args' if link else 'e2e:pkg-config-compile-args'
+    cnt[key] = 1
+    if len(set(nd)) < len(nd):
+        cnt[key + ':repeated-non-dedupable'] = 1
+    if observed != expected:
+        bad.append((('e2e-pkg-config-link-args-differ-from-eager:' if link else 'e2e-pkg-config-compile-args-differ-from-eager:') +
+                    S.classify_list_diff(t, observed, expected),
+                    {'observed': observed, 'expected': expected, 'pkg-config_prints': {n: says[n]['libs' if link else 'cflags'] for n in names},
+                     'increments_in_order_of_addition': incs}))
+    return cnt, bad
+
+
 def run_project(proj: dict, root: T.Optional[str] = None) -> dict:
     """One real `meson setup` with the shadow installed + the end-to-end checks. Plain data out."""
     own = root is None
@@ -1289,11 +1508,17 @@ def run_project(proj: dict, root: T.Optional[str] = None) -> dict:
     src = os.path.join(root, f'p{proj["idx"]}')
     res: dict = {'idx': proj['idx'], 'counters': {}, 'viol': [], 'status': 'ok', 'features': proj['features']}
     try:
-        runner.write_tree(src, proj['files'])
+        runner.write_tree(src, {k: (v.replace('@SRC@', src) if k.endswith('.pc') else v) for k, v in proj['files'].items()})
         build_probe_libs(src)
+        says = None
+        if proj.get('pk'):
+            build_pkgconfig_libs(src, proj)
+            says = pkgconfig_says(src, proj)
+            if says is None:
+                res['counters']['e2e:pkg-config-reference-unavailable'] = 1
         menv = {'MESON_FORCE_BACKTRACE': ''}
         menv.update({k: v.replace('@SRC@', src) for k, v in proj.get('env', {}).items()})
-        r = runner.meson(proj['argv'], cwd=src, env=menv, monitors=[S.install_shadow], timeout=180)
+        r = runner.meson([a.replace('@SRC@', src) for a in proj['argv']], cwd=src, env=menv, monitors=[S.install_shadow], timeout=180)
         if r.timed_out:
             res['status'] = 'timeout'
             return res
@@ -1357,7 +1582,48 @@ def run_project(proj: dict, root: T.Optional[str] = None) -> dict:
             tgt = out.split('/')[0][:-2]
             if tgt in ('zvexe1', 'zvexe2', 'zvexe3'):
                 more.append(check_dependency_copies(proj, src, tgt, tokens) + (out, tokens))
-        if proj.get('env'):
+        # every command line: the library group once, in its place; all sources of one target and language get the
+        # same arguments (the generated projects have no per-source arguments)
+        per_target: T.Dict[T.Tuple[str, str], T.List[T.Tuple[str, T.List[str]]]] = {}
+        for out, rule, var in parse_statements(ninja_text):
+            if not re.match(r'^(c|cpp)_(COMPILER|LINKER)$', rule):
+                continue
+            vname = 'ARGS' if rule.endswith('_COMPILER') else 'LINK_ARGS'
+            if vname not in var:
+                continue
+            toks = var[vname]
+            nlib = len([a for a in toks if refargs.is_group_lib(a)])
+            ck = 'e2e:group-markers:' + ('compile' if vname == 'ARGS' else 'link') + (':several-libraries' if nlib >= 2 else '')
+            res['counters'][ck] = res['counters'].get(ck, 0) + 1
+            why = check_group_markers(toks)
+            if why is not None:
+                res['viol'].append((f"e2e-library-group-markers-{why}:{'compile' if vname == 'ARGS' else 'link'}-line",
+                                    {'statement': out, vname: toks}))
+            if vname == 'ARGS':
+                per_target.setdefault((out.split('/')[0] if '/' in out else '', rule), []).append((out, toks))
+        for (tdir, rule), lst in per_target.items():
+            if len(lst) < 2 or not tdir:
+                continue
+            res['counters']['e2e:sources-of-one-target-same-args'] = res['counters'].get('e2e:sources-of-one-target-same-args', 0) + 1
+            if any(refargs.is_group_lib(a) for a in lst[0][1]):
+                res['counters']['e2e:sources-of-one-target-same-args:with-libraries'] = \
+                    res['counters'].get('e2e:sources-of-one-target-same-args:with-libraries', 0) + 1
+            odd = [(o, tk) for o, tk in lst[1:] if tk != lst[0][1]]
+            if odd:
+                res['viol'].append(('e2e-sources-of-one-target-get-different-arguments:' +
+                                    S.classify_list_diff(refargs.CLIKE, lst[0][1], odd[0][1]),
+                                    {'target_dir': tdir, 'rule': rule, 'statement': lst[0][0], 'ARGS': lst[0][1],
+                                     'other_statement': odd[0][0], 'other_ARGS': odd[0][1]}))
+        for out, tokens in stmts.items():
+            if out.startswith('msexe.p/') and proj.get('ms'):
+                more.append(check_multi_source_target(proj, tokens) + (out, tokens))
+            elif out.startswith('pkexe.p/') and says is not None:
+                more.append(check_pkgconfig_args(proj, src, says, tokens, False) + (out, tokens))
+        if says is not None:
+            for out, rule, var in parse_statements(ninja_text):
+                if out == 'pkexe' and rule == 'c_LINKER' and 'LINK_ARGS' in var:
+                    more.append(check_pkgconfig_args(proj, src, says, var['LINK_ARGS'], True) + (out, var['LINK_ARGS']))
+        if proj.get('env_c') or proj.get('env_ld'):
             for out, rule, var in parse_statements(ninja_text):
                 if rule == 'c_LINKER' and 'LINK_ARGS' in var and not out.startswith('subprojects/'):
                     if proj.get('env_ld') and not proj.get('env_shared'):
@@ -1601,7 +1867,12 @@ def main() -> int:
               'meson:contract:compile-check-increment:several-dirs', 'meson:contract:to_native-result-independent',
               'contract:to_native-result-independent', 'read:to_native-kept-result', 'e2e:env-compile-flags',
               'e2e:env-link-flags', 'e2e:target-base-args', 'meson:contract:check-link-option-args',
-              'e2e:dependency-copy-include-type', 'e2e:env-link-multiplicity'):
+              'e2e:dependency-copy-include-type', 'e2e:env-link-multiplicity',
+              'e2e:pkg-config-link-args:repeated-non-dedupable', 'e2e:pkg-config-compile-args:repeated-non-dedupable',
+              'e2e:compile-line-library-args:several', 'e2e:group-markers:compile:several-libraries',
+              'e2e:group-markers:link:several-libraries', 'e2e:sources-of-one-target-same-args:with-libraries',
+              'meson:contract:command-line-is-meaning-of-increments',
+              'meson:read:to_native:in-place-conversion-changed-the-list'):
         chk.require(m, 1)
     if chk.counters.get('shadow:adopted', 0):
         chk.notes['adopted_in_process'] = chk.counters['shadow:adopted']
@@ -1619,7 +1890,16 @@ def main() -> int:
             'mesonbuild/arglist.py; classification tables are hand-transcribed data, not read from the class under test',
             'extend_preserving_lflags has no documentation: modelled after its name (-l/-L flags other than the always-dedup '
             'internal libraries are appended directly after the remaining arguments were added as a batch)',
-            'to_native(copy=False) is taken to modify the list itself (group markers, stripped default -isystem)',
+            'to_native(copy=False) is taken to modify the list itself (group markers, stripped default -isystem); inside real '
+            'meson runs every conversion is ALSO compared with the eager meaning of the increments alone (a second '
+            'reference that ignores earlier in-place conversions): a command line must not depend on which other consumers '
+            '(introspection, ...) read or converted the list while it was assembled; in build.ninja the library group is '
+            'there once, in its place, and all sources of one target and language get identical ARGS (the generated '
+            'projects have no per-source arguments)',
+            'pkg-config dependencies: the reference is what the installed pkg-config really prints (--libs with '
+            'PKG_CONFIG_ALLOW_SYSTEM_LIBS=1, --cflags); -L is consumed by the library lookup, -lX stands for the one file '
+            'the harness created for X; link_args of the listed dependencies are increments in listed order, compile_args '
+            'in reversed listed order; compared on the arguments only these dependencies supply (-pthread excluded)',
             'precedence of argument sources end to end is demanded only where a comment in backends.py/ninjabackend.py or '
             'docs/yaml states it: project < global < c_args option < target, dependency < target; '
             'include_directories: first listed first (-I), reversed for is_system (include_directories.yaml)',
